@@ -43,7 +43,7 @@ pub fn run(ctx: &Ctx) -> i32 {
         &mon,
         Spec::new(
             "exploration",
-            "trees A of 1..500 harness-chosen leaves; candidate single-epoch append-only proofs assembled from A's real nodes: P0 honest, P1 inserted leaf below an 'unchanged' interior node (shadowing), P2 duplicates within/across unchanged and inserted (leaf replaced / re-dated), P3 unchanged ancestor + descendant, P4 altered unchanged hash, P7 unchanged cut omitting a subtree, P8 inserted short (non-leaf) labels; end hash chosen by the prover by running the auditor's own insertion. Oracle: verify_consecutive_append_only Ok => every leaf of A (label, leaf hash) is still committed by the end hash. Plus P5/P6 on real directory histories: any altered/shifted/mismatched hash list, epoch list or proof list must be rejected. distinct = (size class, attack class, relation); non-trivial = adversarial",
+            "trees A of 1..500 harness-chosen leaves; candidate single-epoch append-only proofs assembled from A's real nodes: P0 honest, P1 inserted leaf below an 'unchanged' interior node (shadowing), P2 duplicates within/across unchanged and inserted (leaf replaced / re-dated), P3 unchanged ancestor + descendant, P4 altered unchanged hash, P7 unchanged cut omitting a subtree, P8 inserted short (non-leaf) labels; end hash chosen by the prover by running the auditor's own insertion. Oracle: verify_consecutive_append_only Ok => every leaf of A (label, leaf hash) is still committed by the end hash. Plus P5/P6 on real directory histories: any altered/shifted/mismatched hash list, epoch list or proof list must be rejected; P9: a forged step (unchanged set emptied / one node dropped / one hash altered, end hash chosen by the prover) at EVERY position of an otherwise honest multi-epoch chain must be rejected. distinct = (size class, attack class, relation); non-trivial = adversarial",
         )
         .assume("collision resistance of blake3")
         .need("honest_accepted", ctx.tier.pick(200, 3000))
@@ -460,6 +460,54 @@ async fn run_lists<TC: Configuration>(cc: &CaseCtx, case: &HistCase, rng: &mut R
             if !p.proofs[0].unchanged_nodes.is_empty() {
                 p.proofs[0].unchanged_nodes.pop();
                 cands.push(("P5-unchanged-node-dropped", hashes.clone(), p));
+            }
+        }
+        // P9: a FORGED step at position j of an otherwise honest chain.  The forged step drops / alters
+        // committed material in its 'unchanged' set and the prover picks the matching end hash (by running
+        // the auditor's own insertion), then truncates the chain there.  The same forged step is rejected
+        // on its own (its unchanged set does not hash to the start hash); it must be rejected at every
+        // position of a chain as well - in particular at positions j >= 1, where the start hash of the step
+        // is also the end hash of the step before.
+        {
+            let n_steps = proof.proofs.len();
+            for j in 0..n_steps {
+                let honest = &proof.proofs[j];
+                let end_epoch = proof.epochs[j] + 1;
+                let mut variants: Vec<(&str, Vec<AzksElement>)> = vec![("P9-forged-step-unchanged-empty", vec![])];
+                if honest.unchanged_nodes.len() >= 2 {
+                    let mut u = honest.unchanged_nodes.clone();
+                    u.remove(rng.usize_below(u.len()));
+                    variants.push(("P9-forged-step-unchanged-node-dropped", u));
+                }
+                if !honest.unchanged_nodes.is_empty() {
+                    let mut u = honest.unchanged_nodes.clone();
+                    let k = rng.usize_below(u.len());
+                    u[k].value.0[5] ^= 0x40;
+                    variants.push(("P9-forged-step-unchanged-hash-altered", u));
+                }
+                for (cls, unchanged) in variants {
+                    if unchanged == honest.unchanged_nodes {
+                        continue;
+                    }
+                    let mut all = unchanged.clone();
+                    all.extend(honest.inserted.iter().map(|x| AzksElement { label: x.label, value: AzksValue(TC::hash_leaf_with_commitment(x.value, end_epoch).0) }));
+                    if all.is_empty() {
+                        continue;
+                    }
+                    let Ok((forged_end, _)) = auditor_style_root::<TC>(all, Some(end_epoch - 1)).await else {
+                        l.count("prover_could_not_compute_end_hash", 1);
+                        continue;
+                    };
+                    if forged_end == hashes[j + 1] {
+                        continue; // not a forgery (e.g. the dropped node did not matter)
+                    }
+                    let mut h: Vec<Digest> = hashes[..=j].to_vec();
+                    h.push(forged_end);
+                    let mut p = AppendOnlyProof { proofs: proof.proofs[..j].to_vec(), epochs: proof.epochs[..=j].to_vec() };
+                    p.proofs.push(SingleAppendOnlyProof { inserted: honest.inserted.clone(), unchanged_nodes: unchanged });
+                    l.count(if j == 0 { "P9_forged_first_step" } else { "P9_forged_later_step" }, 1);
+                    cands.push((cls, h, p));
+                }
             }
         }
         // P6: the proof of (s,e) against the hashes of another range of the same length
